@@ -13,7 +13,7 @@ from mc import core, impl, explore
 from mc.impl import nfa, build, serialise, child_tags
 from mc.ref import xsd as R
 
-BUDGET = {'quick': 1200, 'thorough': 20000}
+BUDGET = {'quick': 4000, 'thorough': 40000}
 CHUNK = 150
 
 
@@ -177,8 +177,42 @@ def work_pairs(chunk):
     return vio, dict(oc)
 
 
+def work_leafy(names):
+    """classes WITHOUT a content model (simple and empty types): an unchecked instance still accepts any children,
+    keeps them in insertion order and serialises them"""
+    vio = []
+    n = 0
+    for name in names:
+        cls = impl.class_for(name)
+        for w in (('fifths',), ('step', 'fifths'), ('fifths', 'fifths', 'step')):
+            n += 1
+            def f():
+                e = cls(impl.valid_value(cls), xsd_check=False)
+                kids = [e.add_child(impl.child(a)) for a in w]
+                return e, kids
+            o = impl.call(f)
+            if not o.ok:
+                vio.append({'scope': name, 'kind': 'unchecked-raises', 'key': [name, list(w), 'add'], 'observed': o.as_json()})
+                continue
+            e, kids = o.value
+            s = serialise(e)
+            if s[0] != 'ok':
+                vio.append({'scope': name, 'kind': 'unchecked-raises', 'key': [name, list(w), 'to_string'], 'observed': list(s[:3])})
+                continue
+            if child_tags(s[1]) != list(w) or [id(k) for k in e.get_children()] != [id(k) for k in kids]:
+                vio.append({'scope': name, 'kind': 'unchecked-reorders', 'key': [name, list(w)], 'observed': child_tags(s[1])})
+                continue
+            r = impl.call(e.replace_child, kids[0], impl.child('octave'))
+            r2 = impl.call(e.remove, kids[-1]) if len(kids) > 1 else None
+            if not r.ok or (r2 is not None and not r2.ok):
+                vio.append({'scope': name, 'kind': 'unchecked-raises', 'key': [name, list(w), 'replace/remove'],
+                            'observed': (r if not r.ok else r2).as_json()})
+    return vio, n
+
+
 def run(tier):
     run_ = core.Run('C18', tier)
+    r1 = explore.r1_prepare()
     guards = []
     plans = core.pmap(plan, [(T, tier) for T in impl.TYPES])
     tasks = []
@@ -200,15 +234,21 @@ def run(tier):
         run_.add_violations(vio)
         for k, v in o.items():
             pc[k] += v
+    leafy = sorted(n for n in R.partwise_elements() if len(R.partwise_elements()[n]) == 1 and
+                   (R.element_type(n)[0] == 'simple' or R.content_model(R.element_type(n)[1]) is None))
+    nleafy = 0
+    for vio, n in core.pmap(work_leafy, [leafy[i:i + 20] for i in range(0, len(leafy), 20)]):
+        run_.add_violations(vio)
+        nleafy += n
     if oc['ok'] == 0:
         guards.append('no word passed in part (1)')
     if pc['nested_checked_probes'] == 0 or pc['nested_unchecked_probes'] == 0:
         guards.append('no nested probe in part (2)')
     run_.assumptions += ['alphabet reduction R1 plus one foreign element per type', 'opaque leaf children']
     cov = {'states': nw, 'transitions': nw + sum(pc.values()), 'traces_validated_against_impl': nw + len(ps),
-           'word_outcomes': dict(oc), 'pairs': len(ps), 'pair_counters': dict(pc), 'per_type': per_type,
+           'word_outcomes': dict(oc), 'classes_without_content_model': len(leafy), 'leafy_words': nleafy, 'pairs': len(ps), 'pair_counters': dict(pc), 'per_type': per_type,
            'samples': [{'type': 'pitch', 'word': ['octave', 'fifths', 'step']}, {'pair': list(ps[0])}],
-           'exhaustive': True,
+           'exhaustive': True, 'r1_check': r1,
            'rule': 'all words up to per-type length (budget %d) over reduced alphabet + foreign element on unchecked '
                    'instances; all (parent, element-content child) pairs x flag assignments' % BUDGET[tier]}
     return run_.finish(cov, guard_errors=guards)
